@@ -107,15 +107,36 @@ theorem bufioxDec_bytes_le (b : Bytes) (cap : Nat) (t : UInt8) (out : Bytes) (r'
     have hl : out.length = n := by rw [← h1, List.length_take]; omega
     exact ⟨by omega, by rw [hl, h1]⟩
 
-/-- ReaderSkipDecoder over a plain io.Reader that delivers its stream (`Delivers`; e.g. a
-    bytes.Reader: every Read hands over what fits, io.EOF afterwards) — every byte string, every
-    type byte: a value or an error; never a panic. -/
-theorem readerDec_safe (src : Src) (t : UInt8) (hd : Delivers src.script src.stream.length = true) :
+/-- SkipDecoder (over bufiox) over the buffered reader in any good state over ANY source script:
+    never a panic. -/
+theorem bufioxDec_stream_safe (r : Rd) (t : UInt8) (hok : RdOK r) :
+    (∀ s, bufioxDecNext r t ≠ .panic s) ∧ bufioxDecNext r t ≠ .oob := by
+  rcases bufioxDecNext_any r t hok with ⟨e, he⟩ | ⟨n, r1, _, hy, _⟩
+  · simp [he]
+  · simp [hy]
+
+/-- ReaderSkipDecoder over a plain io.Reader — EVERY byte string, EVERY type byte, EVERY source
+    behaviour (any script of short / empty reads and errors; a bytes.Reader in particular): a value
+    or an error; never a panic; the read-full loop terminates. -/
+theorem readerDec_safe (src : Src) (t : UInt8) :
     (∀ s, readerDecNext src t ≠ .panic s) ∧ readerDecNext src t ≠ .oob := by
-  have h2 := readerDecNext_exact src t hd
-  cases hb : refTpl Facts.defaultRecursionDepth t src.stream with
-  | none => rw [hb] at h2; obtain ⟨e, he⟩ := h2; simp [he]
-  | some n => rw [hb] at h2; obtain ⟨s', hx, _⟩ := h2; simp [hx]
+  rcases readerDecNext_any src t with ⟨e, he⟩ | ⟨n, s1, _, hy, _⟩
+  · simp [he]
+  · simp [hy]
+
+/-- … and whenever it reports success, the returned bytes are a prefix of the stream and the
+    source has been read exactly that far -/
+theorem readerDec_le (src src' : Src) (t : UInt8) (out : Bytes) (hx : readerDecNext src t = .ok (out, src')) :
+    out.length ≤ src.stream.length ∧ out = src.stream.take out.length ∧
+    src'.stream = src.stream.drop out.length := by
+  rcases readerDecNext_any src t with ⟨e, he⟩ | ⟨n, s1, hb, hy, hrem⟩
+  · rw [he] at hx; cases hx
+  · rw [hy] at hx
+    have hinj := Prod.mk.inj (Out.ok.inj hx)
+    have hn := (refTpl_good _ t _ n hb).2
+    have hl : out.length = n := by rw [← hinj.1, List.length_take]; omega
+    rw [hl]
+    exact ⟨hn, hinj.1.symm, by rw [← hinj.2]; exact hrem⟩
 
 /-- non-vacuity: type byte 0xff, a truncated list, a negative size — all handled on the stream
     skippers (evaluated on the model) -/
@@ -127,6 +148,11 @@ example : ∃ e, skipBR TT.LIST (Rd.newBytes [0xff, 0, 0, 0, 1, 7] 6) = .err e :
   have : refBR Facts.defaultRecursionDepth TT.LIST [0xff, 0, 0, 0, 1, 7] = none := by decide
   rw [hr, this] at h2
   exact h2
-example : Delivers [⟨3, none⟩, ⟨0, none⟩, ⟨100, none⟩] 2 = true := by decide
+
+/-- a source that errors in mid-value (and a truncated one): an error, no panic (model evaluated) -/
+example : readerDecNext ⟨[0,0,0,2, 65, 66], [⟨3, none⟩, ⟨1, some (.src 1)⟩, ⟨1, some (.src 2)⟩]⟩ TT.STRING
+    = .err (.raw (.src 2)) := by decide
+example : readerDecNext ⟨[0,0,0,2, 65], [⟨3, none⟩, ⟨0, none⟩, ⟨5, none⟩]⟩ TT.STRING = .err (.raw .eof) := by
+  decide
 
 end Verif.C03
